@@ -119,7 +119,7 @@ def snappyChunks (unsnap : Bytes → Option Bytes) : Nat → Bytes → Bytes →
     | none => .err                      -- next_i32!: UnexpectedEOF
     | some (n, r) =>
       if n ≤ 0 then .err
-      else if n.toNat > r.length then .panic
+      else if n.toNat > r.length then .err   -- chunk length beyond the input: UnexpectedEOF (a slice panic before the repair)
       else match unsnap (r.take n.toNat) with
         | some d => snappyChunks unsnap fuel (r.drop n.toNat) (acc ++ d)
         | none => .err
@@ -143,31 +143,32 @@ def fromSlice (cx : Codecs) (debug : Bool) : Nat → Nat → Bytes → Int → B
     | .error .eof => .ok acc
     | .error e => .err e
     | .ok ((off, pm), rest) =>
-      if debug ∧ pm.trailing ≠ 0 then .panic "fetch.rs:481 debug_assert" else
+      -- (bytes after the value are ignored in every build: the `debug_assert!` on them is gone)
       let c := (toU 1 pm.attr) % 8      -- `attr & 0x07` on an i8 (two's complement)
       if c = 0 then
         fromSlice cx debug depth fuel rest req validate (if off ≥ req then acc ++ [⟨off, pm.key, pm.value⟩] else acc)
       else
-        let inner : Except SetRes Bytes :=
-          if c = 1 then
-            match cx.gunzip pm.value with
-            | none => .error (.err .io)
-            | some v => .ok v
-          else if c = 2 then
-            match validateStream pm.value with
-            | .error e => .error (.err e)
-            | .ok s =>
-              match snappyChunks cx.unsnap (s.length + 1) s [] with
-              | .err => .error (.err .io)
-              | .panic => .error (.panic "snappy.rs:167 split_at")
-              | .ok v => .ok v
-          else .error (.err .unsupportedCompression)
-        match inner with
-        | .error r => r
-        | .ok v =>
-          match depth with
-          | 0 => .panic "stack"
-          | d+1 =>
+        match depth with
+        -- MAX_NESTING_DEPTH levels of wrappers are open already (or the codec is unknown): refused before decompressing
+        | 0 => .err .unsupportedCompression
+        | d+1 =>
+          let inner : Except SetRes Bytes :=
+            if c = 1 then
+              match cx.gunzip pm.value with
+              | none => .error (.err .io)
+              | some v => .ok v
+            else if c = 2 then
+              match validateStream pm.value with
+              | .error e => .error (.err e)
+              | .ok s =>
+                match snappyChunks cx.unsnap (s.length + 1) s [] with
+                | .err => .error (.err .io)
+                | .panic => .error (.panic "snappy.rs:167 split_at")
+                | .ok v => .ok v
+            else .error (.err .unsupportedCompression)
+          match inner with
+          | .error r => r
+          | .ok v =>
             match fromSlice cx debug d (v.length + 1) v req validate [] with
             | .ok ms => fromSlice cx debug (d+1) fuel rest req validate (acc ++ ms)
             | r => r
